@@ -189,6 +189,27 @@ func (r *rig) run(direct bool, pid, msg, framed string) (o obs) {
 	r.rec.ptrs, r.rec.copies, r.rec.other = nil, nil, nil
 	n0 := 0
 	o.T0 = time.Now()
+	// logins are taken off the channel while the call runs: however many the code under test hands over (it should
+	// be at most one), the call is never left blocked on the channel and the check never hangs
+	stop, drained := make(chan struct{}), make(chan struct{})
+	go func() {
+		defer close(drained)
+		for {
+			select {
+			case l := <-r.logins:
+				o.Logins = append(o.Logins, l)
+			case <-stop:
+				for {
+					select {
+					case l := <-r.logins:
+						o.Logins = append(o.Logins, l)
+					default:
+						return
+					}
+				}
+			}
+		}
+	}()
 	func() {
 		defer func() {
 			if p := recover(); p != nil {
@@ -202,15 +223,8 @@ func (r *rig) run(direct bool, pid, msg, framed string) (o obs) {
 		}
 	}()
 	o.T1 = time.Now()
-	for {
-		select {
-		case l := <-r.logins:
-			o.Logins = append(o.Logins, l)
-			continue
-		default:
-		}
-		break
-	}
+	close(stop)
+	<-drained
 	for i, ev := range r.rec.copies[n0:] {
 		o.Events = append(o.Events, ev)
 		o.Ptrs = append(o.Ptrs, r.rec.ptrs[n0+i])
